@@ -460,6 +460,8 @@ def decode_rows(out, style):
             segs = segs[1:]
             if segs and segs[0][0] is None and segs[0][1].startswith(" "):
                 segs = ([(None, segs[0][1][1:])] if segs[0][1][1:] else []) + segs[1:]
+        if style == "classic" and len(segs) > 1 and segs[0][0] is None and segs[0][1] in ("  ", "\u2022 ") and segs[1][0] == PAL["file"]:
+            segs = segs[1:]     # navigate marker of `git grep -W` output
         plain = "".join(t for _, t in segs)
         if plain == "":
             rows.append(("B",))
@@ -1049,6 +1051,10 @@ def run_streams(ctx, rep, streams, mdl):
             if any(line_truncated(st, k) for k in range(len(st["lines"]))):
                 # delta works on the truncated line; the model has no truncation
                 emit_skipped.add(si)
+            if r["kind"] == "contextheader" and not VARIANT_OF[st.get("variant", "base")]["full_header"]:
+                # (an ambiguous line read as a `=` line:) its classic rendering follows --hunk-header-style,
+                # which in this variant shows neither file nor number; the row decoder cannot tell it from raw text
+                emit_skipped.add(si)
             if not pok and r["kind"] == "match":
                 # what happens then depends on the text the mis-cut sections happen to contain (a panic when
                 # they differ from the code, nothing when e.g. a TAB in the path left blanks there): the model's
@@ -1072,7 +1078,7 @@ def run_streams(ctx, rep, streams, mdl):
     for (si, style, tabw), (rc, out, err, args, data) in zip(jobs, results):
         st = streams[si]
         if si in emit_skipped:
-            rep.count("streams:emit-correspondence-skipped:truncated-or-prefix-length-not-recomputable")
+            rep.count("streams:emit-correspondence-skipped:truncated/prefix-not-recomputable/undecodable-header")
             emit_idx.append(None)
         elif fields_per_stream[si] is not None:
             hdr = 0 if st["wflag"] else 1
@@ -1283,14 +1289,25 @@ def run_probes(ctx, rep):
                 continue
             P.append(("extensionless-code-starts-with-separator", probe_stream([f"Makefile{sep}{code}"], "git grep -C1 foo" if kind == "context" else "git grep -W foo",
                                                                               [dict(path="Makefile", num=None, kind=kind, code=code, subs=None)], wflag=kind == "contextheader"), ["classic", "ripgrep"]))
+    # (h) --color-only with the ripgrep output style: the path header is followed by the whole input line and
+    #     the hits lose their line numbers (the hunk-header helper keeps "the line as it is" in color-only mode)
+    st = probe_stream(["src/a.rs:12:foo bar", "src/a.rs-13-ctx", "Makefile:3:all: x"], "git grep -n -C1 foo",
+                      [dict(path=p_, num=n_, kind=k_, code=c_, subs=None) for p_, n_, k_, c_ in
+                       (("src/a.rs", 12, "match", "foo bar"), ("src/a.rs", 13, "context", "ctx"), ("Makefile", 3, "match", "all: x"))])
+    st["variant"] = "color-only"
+    P.append(("color-only-ripgrep", st, ["ripgrep"]))
+    st = probe_stream([rg_json("context", "src/a.rs", 3, "ctx\n", []), rg_json("match", "src/a.rs", 4, "fn x\n", [(0, 2)])], "none",
+                      [dict(path="src/a.rs", num=3, kind="context", code="ctx", subs=None), dict(path="src/a.rs", num=4, kind="match", code="fn x", subs=[(0, 2)])], "json")
+    st["variant"] = "color-only"
+    P.append(("color-only-ripgrep", st, ["ripgrep"]))
     jobs = [(name, st, style) for name, st, styles in P for style in styles]
-    results = parallel_map(lambda j: run_stream(ctx, j[1], j[2], 8), jobs)
+    results = parallel_map(lambda j: run_stream(ctx, j[1], j[2], 8, VARIANT_OF[j[1].get("variant", "base")]), jobs)
     for (name, st, style), (rc, out, err, args, data) in zip(jobs, results):
         rows = decode_rows(out, style) if rc == 0 else []
         rep.case(key=("probe", name, data, style), nontrivial=True, sample=None)
         rep.count("probes:" + name)
         replay = dict(kind="stream", args=args, guess=st["guess"], stdin_b64=b64(data), style=style, tabw=8, probe=name,
-                      hits=st["hits"], flavour=st["flavour"], wflag=st["wflag"])
+                      variant=st.get("variant", "base"), hits=st["hits"], flavour=st["flavour"], wflag=st["wflag"])
         judge_probe(rep, name, st, style, rc, out, err, rows, replay)
 
 
